@@ -78,6 +78,18 @@ struct Trial {
     /// the other signal (which has a real handler of its own) was taken over by the library BEFORE this trial's first
     /// registration: its handler is what the race fallback still holds and must never be run for this signal
     other_first: bool,
+    /// non-zero: instead of raising at the site itself, single-step from that arrival and raise at the k-th instruction
+    /// after it (`istep`); raise_site 0 = step from the call of register itself
+    step_k: u64,
+}
+
+static STEP_SIG: AtomicU64 = AtomicU64::new(0);
+
+fn chain_step_action(_k: u64, _rip: usize) {
+    let sig = STEP_SIG.load(Ordering::SeqCst) as c_int;
+    let seq = pool::SEQ.fetch_add(1, Ordering::SeqCst);
+    evlog::log(kind::SEND, sig as u64, seq);
+    crate::sig::queue_self(sig, seq as usize);
 }
 
 fn child(t: &Trial, fd: i32) -> i32 {
@@ -115,7 +127,13 @@ fn child(t: &Trial, fd: i32) -> i32 {
     }
     director::set_rule(site::REG_AFTER_SIGACTION, RuleSpec { mode: mode::CALL, callf: Some(at_sigaction), class_mask: class::MAIN, nth: 1, ..Default::default() });
     // note: CALL at REG_AFTER_SIGACTION and a RAISE there exclude each other; RAISE wins below
-    if t.raise_site != 0 {
+    if t.step_k != 0 {
+        crate::istep::install();
+        STEP_SIG.store(sig as u64, Ordering::SeqCst);
+        if t.raise_site != 0 {
+            crate::istep::plan_for(1, t.raise_site, t.occ, t.step_k, 20_000, u64::MAX, u64::MAX, true, chain_step_action);
+        }
+    } else if t.raise_site != 0 {
         if t.raise_site == site::REG_AFTER_SIGACTION {
             START_SENDING.store(true, Ordering::SeqCst);
         }
@@ -199,7 +217,18 @@ fn child(t: &Trial, fd: i32) -> i32 {
         }
     };
     evlog::log(kind::CALL, 1, sig as u64);
+    if t.step_k != 0 && t.raise_site == 0 {
+        crate::istep::arm(t.step_k, 20_000, chain_step_action);
+    }
     let id1 = unsafe { signal_hook_registry::register_sigaction(sig, mk_action(1)) };
+    if t.step_k != 0 {
+        crate::istep::cancel_plan(1);
+        if crate::istep::is_active() {
+            crate::istep::disarm();
+        }
+        let st = crate::istep::state_of(1);
+        wr(fd, &format!("STEP gap={} fired={} rip={:#x}\n", crate::istep::LAST_GAP[1].load(Ordering::SeqCst), st.fired.load(Ordering::SeqCst), st.fired_rip.load(Ordering::SeqCst)));
+    }
     evlog::log(kind::RET, 1, sig as u64);
     director::lib_exit();
     director::clear_rules();
@@ -423,7 +452,7 @@ pub fn main(args: &[String]) -> i32 {
                     trials.push(t);
                 }
             };
-            let base = Trial { prev: *prev, sig: *sig, raise_site: 0, occ: 1, bombard: false, delay_after_sigaction: false, concurrent_other: false, other_first: false };
+            let base = Trial { prev: *prev, sig: *sig, raise_site: 0, occ: 1, bombard: false, delay_after_sigaction: false, concurrent_other: false, other_first: false, step_k: 0 };
             if real {
                 for s in pre_sites.iter() {
                     push(Trial { raise_site: *s, ..base.clone() }, &mut trials);
@@ -451,6 +480,9 @@ pub fn main(args: &[String]) -> i32 {
             push(Trial { other_first: true, raise_site: site::HL_B_FLIP, occ: 2, ..base.clone() }, &mut trials);
             push(Trial { other_first: true, bombard: true, delay_after_sigaction: true, ..base.clone() }, &mut trials);
         }
+    }
+    if crate::arg_str(args, "--mode", "") == "istep" {
+        return istep_main(args, seed, &sigs);
     }
     let mut bad: Vec<(String, String)> = Vec::new();
     let mut keys = std::collections::HashSet::new();
@@ -530,6 +562,182 @@ pub fn main(args: &[String]) -> i32 {
         .set("deliveries_handled_through_the_race_fallback", J::u(tot[2]))
         .set("nested_raises_fired", J::u(tot[3]))
         .set("previous_handler_calls", J::u(tot[4]))
+        .set("violations", J::u(nviol))
+        .set("wall_ms", J::u(crate::now_ms() - t0)));
+    if nviol == 0 {
+        if let Some(r) = inconclusive {
+            emit(&J::obj().set("type", J::s("inconclusive")).set("reason", J::s(&r)));
+            return 2;
+        }
+    }
+    if nviol > 0 { 1 } else { 0 }
+}
+
+fn classify(l: &str) -> &'static str {
+    if l.contains("did not run") || l.contains("ran 0 times") || l.contains("ran the previous handler 0") { "prev-not-called" }
+    else if l.contains("times") && l.contains("previous") { "prev-called-wrong-count" }
+    else if l.contains("before the previous") || l.contains("ran after") { "prev-not-first" }
+    else if l.contains("info") || l.contains("context") || l.contains("garbage") { "prev-wrong-arguments" }
+    else if l.contains("default/ignore") { "default-or-ignore-called" } else { "chain-misc" }
+}
+
+/// `--mode istep`: a delivery nested on the registering thread at the k-th instruction after every hook arrival of
+/// the first registration (and after the call itself), for all k. Sharded over child processes.
+fn istep_main(args: &[String], seed: u64, sigs: &[c_int]) -> i32 {
+    let of = arg_u64(args, "--of", 0);
+    let stride = arg_u64(args, "--stride", 1).max(1);
+    if !crate::istep::supported() {
+        emit(&J::obj().set("type", J::s("inconclusive")).set("reason", J::s("instruction stepping needs x86-64 Linux")));
+        return 2;
+    }
+    if of == 0 {
+        let n = arg_u64(args, "--shards", 8).max(1);
+        let exe = std::env::current_exe().expect("exe");
+        let mut kids = Vec::new();
+        for i in 0..n {
+            let mut a: Vec<String> = vec!["w_chain".into()];
+            a.extend(args.iter().cloned());
+            a.extend(["--shard".to_string(), i.to_string(), "--of".to_string(), n.to_string()]);
+            kids.push(std::process::Command::new(&exe).args(&a).stdout(std::process::Stdio::piped()).spawn().expect("spawn shard"));
+        }
+        let mut code = 0;
+        for k in kids {
+            let out = k.wait_with_output().expect("shard output");
+            print!("{}", String::from_utf8_lossy(&out.stdout));
+            let c = out.status.code().unwrap_or(101);
+            if c == 1 || (c != 0 && code == 0) {
+                code = c;
+            }
+        }
+        return code;
+    }
+    let shard = arg_u64(args, "--shard", 0);
+    let t0 = crate::now_ms();
+    let pre_sites = [site::REG_CLONED, site::REG_BEFORE_FALLBACK, site::REG_AFTER_FALLBACK];
+    let post_sites = [site::REG_AFTER_SIGACTION, site::REG_BEFORE_PUBLISH, site::REG_DONE];
+    let hl_sites = [site::HL_W_LOCKED, site::HL_W_ALLOC, site::HL_W_SWAPPED, site::HL_B_FIRST, site::HL_B_FLIP, site::HL_B_DONE, site::HL_W_FREE, site::HL_W_FREED];
+    let mut bad: Vec<(String, String)> = Vec::new();
+    let mut keys = std::collections::HashSet::new();
+    let mut samples = Vec::new();
+    let mut points = std::collections::HashSet::new();
+    let (mut trials, mut fired, mut windows, mut brackets, mut fallback) = (0u64, 0u64, 0u64, 0u64, 0u64);
+    let mut inconclusive: Option<String> = None;
+    let mut idx = 0u64;
+    'all: for (pi, prev) in [Prev::Siginfo, Prev::Plain, Prev::Default, Prev::Ignore].iter().enumerate() {
+        let real = matches!(prev, Prev::Plain | Prev::Siginfo);
+        let mut wins: Vec<(u32, u64)> = Vec::new();
+        if real {
+            wins.push((0, 1));
+            wins.extend(pre_sites.iter().map(|s| (*s, 1)));
+            wins.extend(hl_sites.iter().map(|s| (*s, 1)));
+        }
+        wins.extend(post_sites.iter().map(|s| (*s, 1)));
+        wins.extend(hl_sites.iter().filter(|s| **s != site::HL_W_LOCKED).map(|s| (*s, 2)));
+        for other_first in [false, true] {
+            for w in wins.iter() {
+                let mut gap = 0u64;
+                let mut k = u64::MAX - 1;
+                loop {
+                    let measuring = k == u64::MAX - 1;
+                    if !measuring {
+                        idx += 1;
+                        if idx % of != shard || (stride > 1 && (idx / of + seed) % stride != 0) {
+                            k += 1;
+                            if k > gap + 1 {
+                                break;
+                            }
+                            continue;
+                        }
+                    }
+                    let sig = sigs[((idx + pi as u64 + seed) % sigs.len() as u64) as usize];
+                    let t = Trial { prev: *prev, sig, raise_site: w.0, occ: w.1, bombard: false, delay_after_sigaction: false, concurrent_other: false, other_first, step_k: k };
+                    let tc = t.clone();
+                    let res = fork::probe(60_000, false, move |fd| child(&tc, fd));
+                    let label = format!("prev={:?} signal={} step-from={}#{} k={} other_first={}", t.prev, t.sig, if w.0 == 0 { "CALL" } else { director::site_name(w.0) }, w.1, k, other_first);
+                    match &res.end {
+                        End::Exit(0) if res.out.contains("DONE") || res.out.contains("BAD") => {}
+                        End::Timeout => {
+                            inconclusive = Some(format!("trial timed out: {}", label));
+                            break 'all;
+                        }
+                        other => {
+                            bad.push(("chain-trial-died".into(), format!("{}: the process ended with {:?} (a default/ignore disposition called as a function, or a handler called with the wrong arguments?)", label, other)));
+                            break 'all;
+                        }
+                    }
+                    if res.out.contains("ENVIRONMENT ") {
+                        inconclusive = Some(format!("environment: {}", res.out.lines().find(|l| l.starts_with("ENVIRONMENT")).unwrap_or("")));
+                        break 'all;
+                    }
+                    let stepline = res.out.lines().find(|l| l.starts_with("STEP ")).unwrap_or("STEP gap=0 fired=0 rip=0x0").to_string();
+                    let field = |name: &str| -> u64 {
+                        stepline.split_whitespace().find_map(|kv| kv.strip_prefix(name)).map(|v| if let Some(h) = v.strip_prefix("0x") { u64::from_str_radix(h, 16).unwrap_or(0) } else { v.parse().unwrap_or(0) }).unwrap_or(0)
+                    };
+                    if measuring {
+                        gap = field("gap=").min(3000);
+                        windows += 1;
+                    } else {
+                        trials += 1;
+                        if field("fired=") > 0 {
+                            fired += 1;
+                            points.insert((pi, other_first, w.0, w.1, k));
+                            keys.insert(format!("istep:{:?}:{}#{}:{}", t.prev, w.0, w.1, other_first));
+                        }
+                    }
+                    for l in res.out.lines().filter(|l| l.starts_with("BAD ")) {
+                        bad.push((classify(l).into(), format!("{} || {}", &l[4..], label)));
+                    }
+                    if let Some(st) = res.out.lines().find(|l| l.starts_with("STATS ")) {
+                        for kv in st[6..].split_whitespace() {
+                            if let Some(v) = kv.strip_prefix("brackets=") {
+                                brackets += v.parse::<u64>().unwrap_or(0);
+                            }
+                            if let Some(v) = kv.strip_prefix("fallback_path=") {
+                                fallback += v.parse::<u64>().unwrap_or(0);
+                            }
+                        }
+                        if samples.len() < 4 && !measuring && field("fired=") > 0 && !st.contains("fallback_path=0") {
+                            samples.push(J::s(&format!("{} -> {} {}", label, stepline, st)));
+                        }
+                    }
+                    if !bad.is_empty() {
+                        break 'all;
+                    }
+                    if measuring {
+                        k = 1;
+                    } else {
+                        k += 1;
+                        if k > gap + 1 {
+                            break;
+                        }
+                    }
+                }
+            }
+        }
+    }
+    let mut nviol = 0;
+    let mut seen = std::collections::HashSet::new();
+    for (s, d) in bad.iter() {
+        if seen.insert(s.clone()) {
+            emit_violation("C04", s, d);
+            nviol += 1;
+        }
+    }
+    emit(&J::obj()
+        .set("type", J::s("summary"))
+        .set("workload", J::s("w_chain"))
+        .set("mode", J::s("istep"))
+        .set("seed", J::u(seed))
+        .set("shard", J::u(shard))
+        .set("evaluations", J::u(fired))
+        .set("distinct_keys", J::arr(keys.iter().map(|k| J::s(k))))
+        .set("samples", J::Arr(samples))
+        .set("step_trials", J::u(trials))
+        .set("step_trials_fired", J::u(fired))
+        .set("step_windows_measured", J::u(windows))
+        .set("step_distinct_instruction_points", J::u(points.len() as u64))
+        .set("dispatch_brackets_checked", J::u(brackets))
+        .set("deliveries_handled_through_the_race_fallback", J::u(fallback))
         .set("violations", J::u(nviol))
         .set("wall_ms", J::u(crate::now_ms() - t0)));
     if nviol == 0 {
